@@ -63,6 +63,15 @@ CHECKS["C07"] = dict(engine="tlc+vh", level="model_checking", ref="4.3", techniq
                      text="For every generated history the real arena must give equal roots exactly for equal families, keep every node reduced and ordered, preserve live families across gc and iterate each set once in ascending order.",
                      note=ZDD_NOTE)
 
+COORD_NOTE = ("Trusted: TLC, the harness projection of the public Coordinator fields. Bounded: 2 workers, 2 groups (2+1 pipelines); every transition of the sequential state graph "
+              "(thousands of histories) plus interleaved-phase histories of <= 12 calls plus random call soups of <= 24 calls. HTTP execute phases, drain/failover/rebalance monoliths not driven.")
+CHECKS["C32"] = dict(engine="tlc+vh", level="model_checking", ref="4.19", technique="TLA+ spec (Coordinator.tla) model-checked with TLC; transition-coverage and interleaved histories generated by TLC and executed on the real Coordinator; recorded states validated by TLC (CoordTrace.tla: conformance + discrepancy-set containment)",
+                     text="TLC shows the bookkeeping invariant for sequential use and its violation under interleaving (recorded finding); every recorded call of the real coordinator must leave exactly the state, and in particular no bookkeeping discrepancy other than those, the faithful model predicts.",
+                     note=COORD_NOTE)
+CHECKS["C33"] = dict(engine="tlc+vh", level="model_checking", ref="4.19", technique="TLA+ spec (Coordinator.tla: Avail / SweepSet / Heartbeat) ; recorded planner choices, sweep results and heartbeat effects of the real Coordinator validated by TLC (CoordTrace.tla invariant RC33)",
+                     text="On every recorded plan the chosen workers must be available in the recorded pre-state and equal the pinned worker when that is available; every recorded sweep must mark exactly the ready workers whose heartbeat is older than the timeout; a heartbeat must make an unhealthy worker ready.",
+                     note=COORD_NOTE)
+
 NOT_APPLICABLE = {
     "C41": "parser totality over arbitrary strings: no state/transition system to specify; a TLA+ model would only enumerate token strings (fuzzing under another name)",
     "C43": "LSP handler robustness over arbitrary text/cursor: per-call robustness, no protocol state in the property; outside model-based verification",
